@@ -103,7 +103,8 @@ def main(argv=None):
     cfg = PROPS[a.prop]
     if a.replay:
         return replay(a.prop, a.replay)
-    timeout_ms = 20000 if tier == 'quick' else 90000
+    # budgets are sized well above the measured times (<= 5 s unloaded) so verdicts do not flip under load
+    timeout_ms = 60000 if tier == 'quick' else 180000
     results = run_contracts(a.prop, cfg.get('modules', []), timeout_ms, a.jobs)
     known = load_known()
     kf = [k for k in known.get('findings', []) if k['property'] == a.prop]
